@@ -7,9 +7,9 @@ package main
 
 import (
 	"bytes"
-	"flag"
 	"context"
 	"encoding/json"
+	"flag"
 	"fmt"
 	"go/types"
 	"math/big"
@@ -37,13 +37,13 @@ type replayResult struct {
 
 // ReplayCtx is attached to every obligation of a function run.
 type ReplayCtx struct {
-	V     *Verifier
-	Pkg   *ssa.Package
-	Fn    *ssa.Function
-	C     *Contract
-	Part  partition
-	Tags  string
-	Repo  string
+	V    *Verifier
+	Pkg  *ssa.Package
+	Fn   *ssa.Function
+	C    *Contract
+	Part partition
+	Tags string
+	Repo string
 }
 
 // concrete value trees mirror the Value shapes: *big.Int | bool | []interface{}
@@ -315,8 +315,8 @@ func newReplayPlan(ctx *ReplayCtx) *replayPlan {
 }
 
 type concreteInput struct {
-	objs    []cval          // per object
-	scalars map[int]cval    // param index -> value (non-pointer params)
+	objs    []cval              // per object
+	scalars map[int]cval        // param index -> value (non-pointer params)
 	gparams map[string]*big.Int // ring-layer replay: chosen values of the contract's ghost parameters
 }
 
